@@ -50,7 +50,9 @@ def validator(f):
 
 def sym_params(e, with_init):
     P = {"mn": I("min_length"), "mx": I("max_length"), "ms": I("mcs")}
-    e.assume(z3.And(P["mn"] >= 1, P["mn"] <= P["mx"], P["ms"] >= 0, P["ms"] < P["mx"]))
+    # max_continuous_silence may be negative (the constructor accepts it); a negative tolerance tolerates nothing, like 0
+    e.assume(z3.And(P["mn"] >= 1, P["mn"] <= P["mx"], P["ms"] < P["mx"]))
+    P["ms0"] = z3.If(P["ms"] < 0, 0, P["ms"])
     if with_init:
         P["im"] = I("init_min")
         P["ims"] = I("init_max_silence")
@@ -247,15 +249,16 @@ def istep_harness(core, mode, kind, goals_for, with_init=True):
     """one real transition (_process(frame) or _post_process()) from an arbitrary state satisfying Inv03.
     goals_for(tokinfo) selects the step obligations of the property ('c01' | 'c02' | 'c03')."""
     def path(e):
-        mn, mx, ms = I("min_length"), I("max_length"), I("mcs")
-        e.assume(z3.And(mn >= 1, mn <= mx, ms >= 0, ms < mx))
+        mn, mx, ms_raw = I("min_length"), I("max_length"), I("mcs")
+        e.assume(z3.And(mn >= 1, mn <= mx, ms_raw < mx))
+        ms = z3.If(ms_raw < 0, 0, ms_raw)          # the bound of the statement: a negative tolerance tolerates nothing
         if with_init:
             im, ims = I("init_min"), I("init_max_silence")
             e.assume(z3.And(im < mx, ims >= 0))
-            tk = core.StreamTokenizer(validator, SymInt(mn), SymInt(mx), SymInt(ms), init_min=SymInt(im), init_max_silence=SymInt(ims), mode=mode)
+            tk = core.StreamTokenizer(validator, SymInt(mn), SymInt(mx), SymInt(ms_raw), init_min=SymInt(im), init_max_silence=SymInt(ims), mode=mode)
         else:
             im, ims = z3.IntVal(0), z3.IntVal(0)
-            tk = core.StreamTokenizer(validator, SymInt(mn), SymInt(mx), SymInt(ms), mode=mode)
+            tk = core.StreamTokenizer(validator, SymInt(mn), SymInt(mx), SymInt(ms_raw), mode=mode)
         Bd = z3.If(im > 1, z3.If(ims > ms, ims, ms), ms)
         tk._reinitialize()
         s = dict(st=I("st"), L=I("L"), sil=I("sil"), start=I("start"), cur=I("cur"), contig=z3.Bool("contig"),
